@@ -57,12 +57,31 @@ class _Score:
         self.score = s
 
 
+# Real objects are LONG-LIVED in the harness, as they are in a worker process of the program (one aligner, one resolver,
+# one comparer serve every query): an operation is executed on an object that has already served other, unrelated
+# operations, so state that survives from one call to the next (caches, memo tables, counters) shows up as a
+# disagreement with the stateless model.  Objects are keyed by their construction parameters only.
+_ALIGNERS, _RESOLVERS, _COMPARERS = {}, {}, {}
+
+
 def make_aligner(P, mult, var, it=1):
-    eng = AlignerEngine(P["md"])
-    eng.iteration = it
-    return Aligner(AlignmentPositionScorer(P["sp"], P["dp"], P["su"]),
-                   AlignmentSegmentsFactory(P["ms"], P["bs"]), eng,
-                   AlignmentSegmentConflictResolver(SegmentChainer(SequentialityScorer(mult, var))))
+    key = (P["sp"], P["dp"], P["su"], P["md"], P["ms"], P["bs"], mult, var)
+    al = _ALIGNERS.get(key)
+    if al is None:
+        if len(_ALIGNERS) > 64:
+            _ALIGNERS.clear()
+        al = _ALIGNERS[key] = Aligner(AlignmentPositionScorer(P["sp"], P["dp"], P["su"]),
+                                      AlignmentSegmentsFactory(P["ms"], P["bs"]), AlignerEngine(P["md"]),
+                                      AlignmentSegmentConflictResolver(SegmentChainer(SequentialityScorer(mult, var))))
+    al.alignmentEngine.iteration = it
+    return al
+
+
+def make_resolver(mult, var):
+    key = (mult, var)
+    if key not in _RESOLVERS:
+        _RESOLVERS[key] = AlignmentSegmentConflictResolver(SegmentChainer(SequentialityScorer(mult, var)))
+    return _RESOLVERS[key]
 
 
 def mk_ends_seg(s):
@@ -137,7 +156,7 @@ def _exec(op, kv):
         return f"{C.show_seg(a)};{C.show_seg(b)}"
     if op == "RESOLVEALL":
         P = params(kv)
-        res = AlignmentSegmentConflictResolver(SegmentChainer(SequentialityScorer(frac(kv["mult"]), int(kv["var"]))))
+        res = make_resolver(frac(kv["mult"]), int(kv["var"]))
         return C.show_segs(res.resolveConflicts(C.parse_segs(kv.get("SEG", ""), P)).segments)
     if op == "GETSEGS":
         P = params(kv)
@@ -426,7 +445,27 @@ def compare_real(flag, A, B):
     old = ac.SequenceMatcher
     ac.SequenceMatcher = Rec
     try:
-        cmp = ac.AlignmentComparer(ac.AlignmentRowComparer(flag)).compare(A, B)
+        # a long-lived comparer that has already compared a PREFIX of the same list object: the comparison of the grown
+        # list must be what a fresh comparer returns
+        key = bool(flag)
+        if key not in _COMPARERS:
+            _COMPARERS[key] = ac.AlignmentComparer(ac.AlignmentRowComparer(flag))
+        shared = _COMPARERS[key]
+        X = list(A[:len(A) // 2])
+        shared.compare(X, B)
+        X.extend(A[len(A) // 2:])
+        del rec[:]
+        cmp = shared.compare(X, B)
+        rec_shared = list(rec)
+        del rec[:]
+        fresh = ac.AlignmentComparer(ac.AlignmentRowComparer(flag)).compare(A, B)
+        if show_comparison(fresh) != show_comparison(cmp):
+            class Stateful:
+                pass
+            bad = Stateful()
+            bad.stateful = (show_comparison(cmp), show_comparison(fresh))
+            return bad, rec
+        rec[:] = rec_shared if not rec else rec
     finally:
         ac.SequenceMatcher = old
     return cmp, rec
@@ -438,6 +477,8 @@ def _sp(ps):
 
 def show_comparison(cmp):
     import src.diagnostic.alignment_comparer as ac
+    if hasattr(cmp, "stateful"):
+        return "STATEFUL-COMPARER reused=" + cmp.stateful[0].replace(" ", "~") + " fresh=" + cmp.stateful[1].replace(" ", "~")
     rows = []
     for r in cmp.rows:
         t = {ac.AlignmentRowComparisonResultType.BOTH: "B", ac.AlignmentRowComparisonResultType.FIRST_ONLY: "F",
@@ -476,8 +517,19 @@ def _show_call(c):
 
 
 def _cluster(kv):
+    """clusters the SAME row objects twice (as a caller that clusters at two blur distances, or writes the file twice,
+    does): the caller's rows must come back untouched and the second clustering must equal the first"""
+    import copy
     from write_indel_files import cluster_indels
-    return ";".join(_show_call(c) for c in cluster_indels(_calls(kv.get("CALLS", "")), int(kv["blur"])))
+    calls = _calls(kv.get("CALLS", ""))
+    before = copy.deepcopy(calls)
+    out1 = ";".join(_show_call(c) for c in cluster_indels(calls, int(kv["blur"])))
+    if calls != before:
+        return "MUTATED-INPUT " + out1
+    out2 = ";".join(_show_call(c) for c in cluster_indels(calls, int(kv["blur"])))
+    if out2 != out1:
+        return "NOT-REPEATABLE " + out1 + " || " + out2
+    return out1
 
 
 def _indelfile(kv):
